@@ -7,6 +7,7 @@ package main
 
 import (
 	"fmt"
+	"go/types"
 	"os"
 	"sort"
 	"strconv"
@@ -112,11 +113,6 @@ func (x *Exec) callsiteAsserts(fr *Frame, st *State, c *ssa.CallCommon, site *ss
 			}
 		}
 		env := &CEnv{x: x, fr: fr, st: st, old: &fr.entry, pkg: fr.pkg, mode: x.m(), vars: map[string]Value{}, ghostsOK: fr == fr.top, goal: true}
-		for i, p := range fr.fn.Params {
-			if i < len(fr.params) {
-				env.vars[p.Name()] = fr.params[i]
-			}
-		}
 		for k, a := range args {
 			env.vars[fmt.Sprintf("arg%d", k)] = a
 		}
@@ -195,4 +191,29 @@ func sourceLine(pos string) string {
 		return ""
 	}
 	return lines[ln-1]
+}
+
+// isCapturedCell: the free variable is the address of a variable (an Alloc) of the enclosing function.
+func isCapturedCell(parent *ssa.Function, fv *ssa.FreeVar) bool {
+	for _, l := range parent.Locals {
+		if l.Comment == fv.Name() && types.Identical(l.Type(), fv.Type()) {
+			return true
+		}
+	}
+	for _, b := range parent.Blocks {
+		for _, ins := range b.Instrs {
+			if l, ok := ins.(*ssa.Alloc); ok && l.Comment == fv.Name() && types.Identical(l.Type(), fv.Type()) {
+				return true
+			}
+		}
+	}
+	// parameters of the enclosing function captured by a closure are spilled into cells as well
+	for _, p := range parent.Params {
+		if p.Name() == fv.Name() {
+			if pt, ok := fv.Type().(*types.Pointer); ok && types.Identical(pt.Elem(), p.Type()) {
+				return true
+			}
+		}
+	}
+	return false
 }
